@@ -649,8 +649,11 @@ def clip(a, a_min=None, a_max=None, out=None, out_like=None, sizing='optimal', m
         val_min = kwargs.pop('a_min', None)
         val_max = kwargs.pop('a_max', None)
 
-        if val_min is not None: val_min *= 2**x.n_frac
-        if val_max is not None: val_max *= 2**x.n_frac
+        # scale the bounds into new objects: `*=` would scale a caller's array in place (and repeat a list)
+        if isinstance(val_min, (list, tuple)): val_min = np.array(val_min)
+        if isinstance(val_max, (list, tuple)): val_max = np.array(val_max)
+        if val_min is not None: val_min = val_min * 2**x.n_frac
+        if val_max is not None: val_max = val_max * 2**x.n_frac
 
         return utils.clip(x.val, val_min=val_min, val_max=val_max) * precision_cast(2**(n_frac - x.n_frac))
 
